@@ -233,6 +233,8 @@ class Rules:
         # R13 debug_assert! is compiled out of release builds; dropped
         b = self.sub('R13', r'debug_assert!' + PAREN + r';', '', b)
         b = self.sub('R8', r'log::\w+!' + PAREN + r';', '', b)
+        # R24: `.clone()` -> `.vclone()` (blanket trusted helper: Clone returns a structurally equal value, T4)
+        b = self.sub('R24', r'\.clone\(\)', '.vclone()', b)
         return b
 
 
@@ -308,7 +310,7 @@ class Unit:
     """One function of /repo under contract."""
 
     def __init__(self, name, file, fn, header, impl=None, sig=None, wrap=('', ''), loops=(), subs=(), proofs=(),
-                 pre='', anyhow=True, fn_rx=None, serves=(), note='', rules=True, post_subs=(), text=None):
+                 pre='', anyhow=True, fn_rx=None, serves=(), note='', rules=True, post_subs=(), text=None, subs_all=()):
         self.name = name          # display name, e.g. "Bound::pow"
         self.file = file
         self.impl = impl          # regex of the impl header (None = free fn)
@@ -320,6 +322,7 @@ class Unit:
         self.loops = list(loops)
         self.subs = list(subs)    # (from, to) exact-text, each exactly once, applied after the rules
         self.post_subs = list(post_subs)
+        self.subs_all = list(subs_all)   # (from, to, count): every occurrence, count must match
         self.proofs = list(proofs)  # (anchor, text): anchor 'start' | ('before', regex) | ('after', regex)
         self.pre = pre            # text emitted before the impl (e.g. SpecImpl blocks)
         self.anyhow = anyhow
@@ -343,6 +346,10 @@ class Unit:
         for a, b in self.subs:
             if body.count(a) != 1:
                 raise LostAnchor('substitution source %r occurs %d times in %s' % (a, body.count(a), self.name))
+            body = body.replace(a, b)
+        for a, b, cnt in self.subs_all:
+            if body.count(a) != cnt:
+                raise LostAnchor('substitution source %r occurs %d times in %s (contract written for %d)' % (a, body.count(a), self.name, cnt))
             body = body.replace(a, b)
         body = annotate_loops(body, self.loops, self.name)
         for a, b in self.post_subs:
@@ -560,6 +567,8 @@ def get_type(file, kind, name, rules, keep_derives=('Debug', 'Clone', 'Copy', 'P
     body = rules.apply(body, anyhow=False)
     kept = [d.split('::')[-1] for d in derives if d.split('::')[-1] in keep_derives and d.split('::')[-1] not in drop_derives]
     text = ('#[derive(%s)]\n' % ', '.join(kept) if kept else '') + 'pub %s %s %s\n' % (kind, name, body)
+    if 'PartialEq' in kept and 'Eq' in kept:
+        text += 'unsafe impl Structural for %s {}\n' % name   # T4: derived Eq is structural equality (derive(Structural) panics inside modules)
     return dict(text=text, derives=[d.split('::')[-1] for d in derives], line=line_of(s, a), file=file)
 
 
@@ -613,3 +622,25 @@ def expand_macro(def_file, name, args):
     for p, a in zip(params, args):
         body = re.sub(r'\$%s\b' % p, a, body)
     return body
+
+
+def get_newtype(file, name, rules):
+    """`pub struct NAME(u64);` with derive_more From/Deref -> struct + generated one-line impls (R13)."""
+    s = load(file)
+    ms = list(re.finditer(r'pub struct %s\((?:pub\s+)?(\w+)\);' % re.escape(name), s))
+    if len(ms) != 1:
+        raise LostAnchor('newtype %s not found in %s' % (name, file))
+    inner = ms[0].group(1)
+    pre = s[:ms[0].start()].rstrip()
+    m = re.search(r'#\[derive\(([^)]*)\)\]\s*$', pre)
+    derives = [d.strip().split('::')[-1] for d in m.group(1).split(',')] if m else []
+    keep = [d for d in derives if d in ('Debug', 'Clone', 'Copy', 'PartialEq', 'Eq', 'PartialOrd', 'Ord', 'Hash')]
+    t = '#[derive(%s)]\npub struct %s(pub %s);\n' % (', '.join(keep), name, inner)
+    if 'PartialEq' in keep and 'Eq' in keep:
+        t += 'unsafe impl Structural for %s {}\n' % name
+    if 'From' in derives:
+        t += ('impl vstd::std_specs::convert::FromSpecImpl<%s> for %s { open spec fn obeys_from_spec() -> bool { true } open spec fn from_spec(v: %s) -> Self { %s(v) } }\n'
+              'impl From<%s> for %s { fn from(v: %s) -> (r: Self) ensures r.0 == v { %s(v) } }\n' % (inner, name, inner, name, inner, name, inner, name))
+    if 'Deref' in derives:
+        t += 'impl %s { pub fn deref(&self) -> (r: &%s) ensures *r == self.0 { &self.0 } }\n' % (name, inner)
+    return dict(text=t, derives=derives, line=line_of(s, ms[0].start()))
